@@ -372,7 +372,10 @@ class Gen:
     def query(self, pid):
         rng = self.rng
         kind, pkg = 'abs', None
-        pk = sorted(d for d in self.sh.dirs if len(d) == 1)
+        # a Script inside package p gets p's directory appended to sys.path by jedi (C20); a namespace
+        # directory zqn1 that contains zqn1.py would then lose against that module.  zqn1 is the only name
+        # used at both levels, so relative-import Scripts are never placed in zqn1/.
+        pk = sorted(d for d in self.sh.dirs if len(d) == 1 and d != (1,))
         if pk and rng.random() < 0.3:
             kind, pkg = 'rel', rng.choice(pk)[0]
         targets = []
